@@ -28,6 +28,7 @@ CONSTANTS
  EnforceNew = %s
  Variant = "%s"
  StartWithMain = TRUE
+ Overwrite = TRUE
  Names <- MCNames
  MainFile = "main"
  Dirs <- MCDirs
